@@ -71,7 +71,8 @@ class SymArgs:
         for c in self.shape:
             if c[0] == 'real':
                 m, s = self.leaves[k]; k += 1
-                out.append(summaries._mk_float(s.t != 0, EXP0, m.t, None, self.CW))
+                # ('real', e): the argument is c * 2^e instead of the default half-integers (C11: operands far apart make binary64 / binary32 operations inexact)
+                out.append(summaries._mk_float(s.t != 0, c[1] if len(c) > 1 else EXP0, m.t, None, self.CW))
             elif c[0] == 'list':
                 lst = []
                 for _ in range(c[1]):
@@ -88,7 +89,7 @@ def concrete_args(shape, inputs):
     out = []; k = 0
     for c in shape:
         if c[0] == 'real':
-            out.append(Float(bool(inputs['s%d' % k]), EXP0, inputs['c%d' % k])); k += 1
+            out.append(Float(bool(inputs['s%d' % k]), c[1] if len(c) > 1 else EXP0, inputs['c%d' % k])); k += 1
         elif c[0] == 'list':
             lst = []
             for _ in range(c[1]):
